@@ -13,7 +13,27 @@ ALL = [f"C{i:02d}" for i in range(1, 21)]
 PENDING_REASON = "check not built yet in this revision (planned, see DESIGN.md section 9); no claim is made until its model, theorems and correspondence exist"
 
 
+def aggregate_findings():
+    """findings/Cxx.json fragments are the source the checks read; known_findings.json is their aggregate."""
+    agg = {"_comment": "aggregate of findings/Cxx.json (the files the checks read). open: genuine defects recorded rather "
+                       "than repaired - suppressed only by their exact key, replayed on every run (KNOWN-FINDING line). "
+                       "fixed: repaired by a fix: commit in /repo - suppresses nothing; the witness cases run first in every check.",
+           "open": [], "fixed": [], "fix_commits": []}
+    for p in sorted((VERIF / "findings").glob("C*.json")):
+        d = json.loads(p.read_text())
+        for k in ("open", "fixed"):
+            for f in d.get(k, []):
+                agg[k].append({"property": p.stem, **f})
+        for f in d.get("fixed", []):
+            c = f.get("commit")
+            if c and c not in agg["fix_commits"]:
+                agg["fix_commits"].append(c)
+    (VERIF / "known_findings.json").write_text(json.dumps(agg, indent=1) + "\n")
+    return agg
+
+
 def main():
+    agg = aggregate_findings()
     checks = []
     for pid in ALL:
         if pid not in CHECKS:
@@ -37,7 +57,7 @@ def main():
             "guard": "MOLGRI_VERIF",
             "enable": "no hooks are needed: every observation point is a public function or getter of the package; the guard is recorded but unused",
             "baseline_off_cmd": "cd /repo && /venv/bin/python -m pytest -ra -q -p no:cacheprovider --timeout=900 --continue-on-collection-errors",
-            "source_commits": json.loads((VERIF / "known_findings.json").read_text()).get("fix_commits", []),
+            "source_commits": agg["fix_commits"],
             "add_only": True,
         },
         "engines": [{
